@@ -47,4 +47,36 @@ ZOut z_boolopD(int ct, int fr, const PathsZ& S, const PathsZ& C, int precision, 
   for (auto& p : sc) { PathZ q; for (auto& v : p) q.push_back({(i64)std::llround(v.x * scale), (i64)std::llround(v.y * scale), v.z}); o.closed.push_back(q); }
   return o;
 }
+ZOut z_boolopD_callback_removed(int ct, int fr, const PathsZ& S, const PathsZ& C, int precision) {
+  ZOut o; i64 next = -1;
+  auto tod = [](const PathsZ& pp) { CZ::PathsD r; for (auto& p : pp) { CZ::PathD q; for (auto& v : p) q.emplace_back((double)v.x / 4.0, (double)v.y / 4.0, v.z); r.push_back(q); } return r; };
+  double scale = std::pow(2.0, std::ilogb(std::pow(10, precision)) + 1);
+  try {
+    CZ::ClipperD c(precision);
+    c.SetZCallback([&](const CZ::PointD&, const CZ::PointD&, const CZ::PointD&, const CZ::PointD&, CZ::PointD& pt) { pt.z = next; --next; });
+    if (!S.empty()) c.AddSubject(tod(S)); if (!C.empty()) c.AddClip(tod(C));
+    CZ::PathsD sc, so; c.Execute((CZ::ClipType)ct, (CZ::FillRule)fr, sc, so);
+    c.SetZCallback(nullptr);
+    i64 calls_before = next;
+    o.ok = c.Execute((CZ::ClipType)ct, (CZ::FillRule)fr, sc, so);
+    if (next != calls_before) o.log.push_back({0, 0, next});
+    for (auto& p : sc) { PathZ q; for (auto& v : p) q.push_back({(i64)std::llround(v.x * scale), (i64)std::llround(v.y * scale), v.z}); o.closed.push_back(q); }
+  } catch (...) { o.ok = false; o.closed.clear(); o.log.push_back({-1, -1, 0}); }
+  return o;
+}
+ZOut z_boolop_callback_removed(int ct, int fr, const PathsZ& S, const PathsZ& C) {
+  ZOut o; i64 next = -1;
+  try {
+    CZ::Clipper64 c;
+    c.SetZCallback([&](const CZ::Point64&, const CZ::Point64&, const CZ::Point64&, const CZ::Point64&, CZ::Point64& pt) { pt.z = next; --next; });
+    if (!S.empty()) c.AddSubject(toz(S)); if (!C.empty()) c.AddClip(toz(C));
+    CZ::Paths64 sc, so; c.Execute((CZ::ClipType)ct, (CZ::FillRule)fr, sc, so);
+    c.SetZCallback(nullptr);
+    i64 calls_before = next;
+    o.ok = c.Execute((CZ::ClipType)ct, (CZ::FillRule)fr, sc, so);
+    if (next != calls_before) o.log.push_back({0, 0, next});
+    o.closed = fromz(sc);
+  } catch (...) { o.ok = false; o.closed.clear(); o.log.push_back({-1, -1, 0}); }
+  return o;
+}
 }
